@@ -38,7 +38,7 @@ ASSUMPTIONS = ["the IPython magic is driven through a real in-process Interactiv
 COMPONENTS = {"real": ["jaxtyping._import_hook", "jaxtyping._pytest_plugin.pytest_configure", "jaxtyping._ipython_extension",
                        "IPython InteractiveShell (cell execution, AST transformers, magics, extension manager)", "CPython importlib", "file system"],
               "stub": ["pytest config object", "spy typecheckers", "process boundary between histories (soft restart)"]}
-NAMES = ["foo", "foo.sub", "foo.sub.leaf", "foo.util", "foobar", "foo_bar", "fo", "bar", "bar.baz", "foox", "foox.sub", "fo.o", "foo.su"]
+NAMES = ["foo", "foo.sub", "foo.sub.leaf", "foo.util", "foobar", "foo_bar", "fo", "bar", "bar.baz", "foox", "foox.sub", "fo.o", "foo.su", "nsp", "nsp.inner"]
 
 
 def worker_init():
